@@ -17,6 +17,13 @@ for f in sorted(glob.glob(os.path.join(ROOT, "tools", "claims.d", "C*.json"))):
             claims["hook_commits"].append(h)
 props = [json.loads(l) for l in open(os.path.join(ROOT, "properties.jsonl"))]
 ids = [p["id"] for p in props]
+def hook_commits():
+    import subprocess
+    try:
+        out = subprocess.run(["git", "-C", "/repo", "log", "--reverse", "--format=%h", "--grep", "^hook:", "123f9c2..HEAD"], capture_output=True, text=True).stdout.split()
+        return out or claims.get("hook_commits", [])
+    except Exception:
+        return claims.get("hook_commits", [])
 checks, na = [], []
 for pid in ids:
     c = claims["claimed"].get(pid)
@@ -41,14 +48,14 @@ m = {
         "guard": "--cfg fuellabs_sway_verif",
         "enable": "RUSTFLAGS='--cfg fuellabs_sway_verif' (set by vlib/rust.py and harness/.cargo/config.toml) when building harness/ against /repo path dependencies",
         "baseline_off_cmd": "cd /repo && cargo nextest run --workspace --no-fail-fast --test-threads 8 --offline || cargo test --workspace --no-fail-fast --offline",
-        "source_commits": claims.get("hook_commits", []),
-        "add_only": True,
+        "source_commits": hook_commits(),
+        "add_only": False,
     },
     "engines": [{"name": "coq-model+correspondence", "path": "/verif/bin/check",
                  "serves_properties": [c["property_id"] for c in checks],
                  "kind_free_text": "Coq 8.16.1 theorems about hand-written executable models (coq/Cxx), tied to /repo by T-gen facts regenerated from source (tools/facts.py) and by differential correspondence runs (Rust harness in harness/, model evaluated with vm_compute)"}],
     "checks": checks,
-    "notes": claims.get("notes", ""),
+    "notes": claims.get("notes", "") + " Hooks: 7 commits in /repo, all code under #[cfg(fuellabs_sway_verif)]; they only add lines except commit 85323d9 (fs_locking.rs), which replaces two calls std::process::id() by a cfg-dependent current_pid() that returns std::process::id() when the cfg is off (hence add_only=false).",
     "not_applicable": na,
 }
 json.dump(m, open(os.path.join(ROOT, "MANIFEST.json"), "w"), indent=1)
